@@ -81,6 +81,28 @@ def run(ctx, focus='C11'):
         except Exception as e:
             viol.append({'property': focus, 'kind': 'scorer-omen-encoding' if rule_enc != 'utf-8' else 'loader-raised', 'error': repr(e)[:200], 'witness': {'passwords': pws, 'ngram': ngram, 'alphabet_size': asize, 'max_length': maxlen}})
             continue
+        # the loader itself: the records of the three files the trainer just wrote (read here as text in the ruleset's encoding, a line
+        # being `level<TAB>n-gram`) go through the Lean model of `_load_ngrams` / `_load_length` (`of.load`: the `loadIp` / `loadCp` /
+        # `loadLn` of C07_omen_files_load); the answer is compared with the dicts the real `load_rules` built from the same files
+        try:
+            def recs(name, enc_):
+                out_ = []
+                for ln_ in open(os.path.join(rd, 'Omen', name), encoding=enc_, newline='').read().split('\n'):
+                    if ln_ != '':
+                        out_.append(ln_.rstrip('\r').split('\t'))
+                return out_
+            ipr, cpr = recs('IP.level', rule_enc), recs('CP.level', rule_enc)
+            lnr = [x[0] for x in recs('LN.level', 'ascii')]
+            if all(len(x) == 2 and x[1] for x in ipr + cpr) and not any('\r' in x[1] or '\n' in x[1] for x in ipr + cpr):
+                ops.append(' '.join(['of.load', str(g['max_level']), str(g['ngram'])] + [f"{a}:{enc(b)}" for a, b in ipr] + ['|'] +
+                                    [f"{a}:{enc(b)}" for a, b in cpr] + ['|'] + lnr))
+                want_ip = '/'.join(','.join(enc(k) for k in g['ip'][L]) for L in range(g['max_level'] + 1))
+                want_ln = '/'.join(','.join(str(k) for k in g['ln'][L]) for L in range(g['max_level'] + 1))
+                want_cp = ';'.join(f"{enc(pre)}@{L}={enc(''.join(cs))}" for pre, d_ in g['cp'].items() for L, cs in d_.items())
+                exp.append(f"ip={want_ip} ln={want_ln} cp={want_cp}")
+                dist['loader_runs_compared'] = dist.get('loader_runs_compared', 0) + 1
+        except (OSError, UnicodeError, KeyError):
+            pass
         # the guesser's view: enumerate levels while they stay small
         glevel, total, lmax = {}, 0, -1
         per_level = {}
